@@ -477,8 +477,16 @@ fn cmd_check(args: &[String]) -> i32 {
         .and_then(|s| s.parse().ok())
         .unwrap_or_else(|| std::thread::available_parallelism().map(|n| n.get()).unwrap_or(4));
     let out_dir = flag(args, "--out").unwrap_or_else(|| ".".into());
+    // A second pass of the same check with another build of profirust (this binary *is* that
+    // build): a share of the runs, results merged into the evidence file of the first pass.
+    let variant: Option<String> = flag(args, "--variant");
+    let runs = match flag(args, "--runs-div").and_then(|s| s.parse::<u64>().ok()) {
+        Some(d) if d > 0 => (runs / d).max(1),
+        _ => runs,
+    };
+    let vtag = variant.as_ref().map(|v| format!("-{v}")).unwrap_or_default();
     let known = load_known(&format!("{out_dir}/known_findings.json"));
-    println!("pbsim check {check} tier={} seed={seed} runs={runs} jobs={jobs}", tier.name());
+    println!("pbsim check {check}{} tier={} seed={seed} runs={runs} jobs={jobs}", variant.as_ref().map(|v| format!(" [{v} build]")).unwrap_or_default(), tier.name());
     let t0 = Instant::now();
     let batch = run_batch(&check, tier, seed, runs, jobs);
     let wall_search = t0.elapsed().as_secs_f64();
@@ -529,7 +537,8 @@ fn cmd_check(args: &[String]) -> i32 {
             trace_hash: r.trace_hash.clone(),
             detail: v.detail.clone(),
         });
-        let tag = format!("{}-{}-{}", check, seed, k);
+        sc.build = variant.clone();
+        let tag = format!("{}-{}-{}{}", check, seed, k, vtag);
         let raw = format!("{out_dir}/replays/{tag}.raw.json");
         let min = format!("{out_dir}/replays/{tag}.json");
         std::fs::write(&raw, serde_json::to_string_pretty(&sc).unwrap()).unwrap();
@@ -616,7 +625,8 @@ fn cmd_check(args: &[String]) -> i32 {
             trace_hash: String::new(),
             detail: v.detail.clone(),
         });
-        let file = format!("{out_dir}/replays/{}-{}-{}.json", check, seed, k);
+        sc.build = variant.clone();
+        let file = format!("{out_dir}/replays/{}-{}-{}{}.json", check, seed, k, vtag);
         std::fs::write(&file, serde_json::to_string_pretty(&sc).unwrap()).unwrap();
         println!("run {k}: {}", v.detail);
         println!("VIOLATION property={} replay={}", check, std::fs::canonicalize(&file).map(|p| p.display().to_string()).unwrap_or(file.clone()));
@@ -624,16 +634,47 @@ fn cmd_check(args: &[String]) -> i32 {
     }
 
     let wall = t0.elapsed().as_secs_f64();
-    let ev = evidence(&check, tier, seed, &batch, wall_search, wall, n_violating_runs, &reported, &known_hit);
+    let mut ev = evidence(&check, tier, seed, &batch, wall_search, wall, n_violating_runs, &reported, &known_hit);
     let _ = std::fs::create_dir_all(format!("{out_dir}/evidence"));
     let path = format!("{out_dir}/evidence/{check}.json");
+    if let Some(v) = &variant {
+        // merge into the evidence of the first pass
+        let base = std::fs::read_to_string(&path).ok().and_then(|s| serde_json::from_str::<serde_json::Value>(&s).ok());
+        let Some(mut base) = base else {
+            eprintln!("HARNESS ERROR: --variant needs the evidence of the first pass at {path}");
+            return 2;
+        };
+        let c = &ev["coverage"];
+        let part = json!({
+            "what": "the same generator and oracles, profirust compiled without debug assertions and overflow checks (what users ship); run indices 0..evaluations of the same base seed",
+            "evaluations": c["evaluations"], "distinct_nontrivial": c["distinct_nontrivial"], "nontrivial_runs": c["nontrivial_runs"],
+            "simulated_seconds": c["simulated_seconds"], "polls": c["polls"], "transmissions": c["transmissions"],
+            "faults_fired": c["faults_fired"], "rare_branch_probes": c["rare_branch_probes"],
+            "aborted_runs": c["aborted_runs"], "abort_reasons": c["abort_reasons"], "hangs": c["hangs"],
+            "violating_runs": c["violating_runs"], "reported": c["reported"], "known_findings_hit": c["known_findings_hit"],
+            "wall_s": ev["wall_s"],
+        });
+        base["coverage"]["build_variants"][v.as_str()] = part;
+        base["violations"] = json!(base["violations"].as_i64().unwrap_or(0) + ev["violations"].as_i64().unwrap_or(0));
+        base["wall_s"] = json!(base["wall_s"].as_f64().unwrap_or(0.0) + ev["wall_s"].as_f64().unwrap_or(0.0));
+        std::mem::swap(&mut ev, &mut base);
+        // the summary line below speaks about this pass
+        ev["coverage"]["_pass"] = base["coverage"].clone();
+    }
     if let Err(e) = std::fs::write(&path, serde_json::to_string_pretty(&ev).unwrap()) {
         eprintln!("HARNESS ERROR: cannot write {path}: {e}");
         return 2;
     }
-    let cov = &ev["coverage"];
+    let pass_cov = ev["coverage"].as_object_mut().and_then(|o| o.remove("_pass"));
+    if variant.is_some() {
+        if let Err(e) = std::fs::write(&path, serde_json::to_string_pretty(&ev).unwrap()) {
+            eprintln!("HARNESS ERROR: cannot write {path}: {e}");
+            return 2;
+        }
+    }
+    let cov = pass_cov.as_ref().unwrap_or(&ev["coverage"]);
     println!(
-        "{check}: {} runs, {} distinct non-trivial, {:.1} simulated s, {} polls, {} violating runs, {:.1} s wall -> {}",
+        "{check}{vtag}: {} runs, {} distinct non-trivial, {:.1} simulated s, {} polls, {} violating runs, {:.1} s wall -> {}",
         cov["evaluations"],
         cov["distinct_nontrivial"],
         cov["simulated_seconds"].as_f64().unwrap_or(0.0),
